@@ -110,11 +110,18 @@ def shapes():
 def markers_of(text):
     return [m.group(1) for m in re.finditer(r'/\*@[SM]:(.*?)@\*/', text)]
 
+def rule_markers_of(text):
+    """markers emitted by a rewriting rule (R5, format! capture, closure bodies): they exist only where the rule applied"""
+    return [m.group(1) for m in re.finditer(r'/\*@M:(.*?)@\*/', text)]
+
 def fallback_anchor(text, what, prefix, nth):
     """the anchored statement no longer exists (deleted or reshaped): attach the hint before the next statement of the
     baseline statement sequence that still exists, else at the end of the body"""
     base = (shapes().get(what) or {}).get('stmts')
     if not base:
+        return None
+    if any(t.startswith(prefix) for t in (shapes().get(what) or {}).get('rule_markers', [])):
+        # the anchor was a marker of a rewriting rule that no longer applies here: the hint is moot
         return None
     idxs = [i for i, t in enumerate(base) if t.startswith(prefix)]
     if not idxs:
@@ -292,6 +299,7 @@ def assemble(unit_names, workdir, repo=None):
         for e in units[un].entries:
             if isinstance(e, vspec.Item):
                 shape_now["%s :: %s" % (e.file, e.sel)] = {"stmts": markers_of(ext[id(e)]['text']),
+                                                          "rule_markers": rule_markers_of(ext[id(e)]['text']),
                                                           "loops": ext[id(e)].get('loop_sigs', [])}
     meta = {"units": order, "linemap": linemap, "items": functions, "path": path, "shapes": shape_now,
             "reanchored": list(REANCHORED)}
